@@ -108,6 +108,17 @@ Theorem C05_control_iters : forall contains in_cube lik blob n_batch vrank neg_i
 Proof. exact iters_trigger. Qed.
 Print Assumptions C05_control_iters.
 
+(* the threshold is the order statistic the code computes with np.sort: the n_live-th largest stored value (at least n_live
+   values at or above it, fewer than n_live strictly above; this fixes its rank), or the smallest value above the plateau *)
+Require Import NV.Shell2CtlSpec.
+Theorem C05_control_threshold : forall vrank cc s, 1 <= cc_nlive cc <= length (all_lls s) -> 1 <= cc_npmin cc ->
+  exists v, Kth vrank (cc_nlive cc) (all_lls s) v /\ ((1 < count_eq vrank (vrank v) (all_lls s) /\ cc_npmin cc <= count_gt vrank (vrank v) (all_lls s) /\ exists t, threshold vrank cc s = Some t /\ MinAbove vrank (vrank v) (all_lls s) (Some t)) \/ (~ (1 < count_eq vrank (vrank v) (all_lls s) /\ cc_npmin cc <= count_gt vrank (vrank v) (all_lls s)) /\ threshold vrank cc s = Some v)).
+Proof. exact threshold_spec. Qed.
+Print Assumptions C05_control_threshold.
+Theorem C05_control_threshold_unique : forall vrank k l v w, Kth vrank k l v -> Kth vrank k l w -> vrank v = vrank w.
+Proof. exact kth_unique. Qed.
+Print Assumptions C05_control_threshold_unique.
+
 (* non-vacuity: the first bound of a run with n_live = 3 *)
 Example C05_control_example :
   let cc := mkCC 3 2 10 1 in
